@@ -61,57 +61,59 @@ Walk(c, s) ==
            binding |-> Binding(c.pol, br), mok |-> m.ok, mrule |-> m.rule,
            detail |-> IF ok /\ Binding(c.pol, br) # {} THEN Detail(c, s, ev) ELSE "-"] >>
        \o Walk(c, After(c, s, ev, ok))
-Steps == TLCEval([k \in 1..NLog |-> TLCEval(Walk(Log[k], InitSt(Log[k])))])
+WalkOf(j) == Walk(Log[j], InitSt(Log[j]))
 
 (***************************************************************************)
-(* The product explored by TLC: record i, step k of its observed life cycle *)
+(* The product explored by TLC: record i, its observed life cycle w, step k *)
 (***************************************************************************)
-VARIABLES i, k, bad
+VARIABLES i, w, k, bad
 
 Init == /\ i \in 1..NLog
+        /\ w = WalkOf(i)
         /\ k = 0
         /\ bad = {}
-Next == /\ k < Len(Steps[i])
+Next == /\ k < Len(w)
         /\ k' = k + 1
-        /\ bad' = bad \cup (IF Steps[i][k + 1].obs = "ok" THEN Steps[i][k + 1].binding ELSE {})
-        /\ UNCHANGED i
-Spec == Init /\ [][Next]_<<i, k, bad>>
+        /\ bad' = bad \cup (IF w[k + 1].obs = "ok" THEN w[k + 1].binding ELSE {})
+        /\ UNCHANGED <<i, w>>
+Spec == Init /\ [][Next]_<<i, w, k, bad>>
+View == <<i, k, bad>>
 
 C05 == Inv_C05(bad)
 
 (***************************************************************************)
-(* Report                                                                    *)
+(* Report (one pass: S is the tuple of all walks, evaluated once)           *)
 (***************************************************************************)
-AllSteps == UNION {{<<j, q>> : q \in 1..Len(Steps[j])} : j \in 1..NLog}
-StepAt(p) == Steps[p[1]][p[2]]
-Violating == {p \in AllSteps : StepAt(p).obs = "ok" /\ StepAt(p).binding # {}}
-Stricter  == {p \in AllSteps : StepAt(p).obs = "refused" /\ StepAt(p).binding = {} /\ StepAt(p).ev # "chain"}
-Panicked  == {p \in AllSteps : StepAt(p).obs = "panic"}
-Diverging == {p \in AllSteps :
-                LET s == StepAt(p) IN
-                /\ s.obs # "panic"
-                /\ \/ s.mok # (s.obs = "ok")
-                   \/ ~s.mok /\ RuleCls(s.mrule) # s.cls}
-SoleRefused == {r \in CommitRules \cup SetupRules :
-                  \E p \in AllSteps : StepAt(p).obs = "refused" /\ StepAt(p).binding = {r}}
-SoleAny     == {r \in CommitRules \cup SetupRules : \E p \in AllSteps : StepAt(p).binding = {r}}
-Advisory == {j \in 1..NLog : LET c == Log[j] IN
-               c.kind = "commit" /\ c.obs.res = "ok" /\ ClaimedFeerateOutside(c.pol, c.setup, c.req)}
-Unreached == {j \in 1..NLog : Log[j].kind = "commit" /\ Log[j].obs.res = "none"}
-
-Describe(p) == LET c == Log[p[1]] s == StepAt(p) IN
-  [id |-> c.id, fam |-> c.fam, why |-> c.why, ev |-> s.ev, side |-> IF s.ev = "setup" THEN "-" ELSE c.side,
-   n |-> c.n, obs |-> s.obs, cls |-> s.cls, rules |-> SetToSeq(s.binding), broken |-> SetToSeq(s.broken),
-   detail |-> s.detail, model_ok |-> s.mok, model_rule |-> s.mrule, line |-> p[1]]
-Some(S, m) == LET q == SetToSeq(S) IN [x \in 1..(IF Len(q) < m THEN Len(q) ELSE m) |-> Describe(q[x])]
-ClsCount(S) == LET cs == {StepAt(p).cls : p \in S} IN
-               SetToSeq({<<c, Cardinality({p \in S : StepAt(p).cls = c})>> : c \in cs})
-
-Report ==
+Flat(S) == UNION {{<<j, q>> : q \in 1..Len(S[j])} : j \in 1..NLog}
+ReportOf(S) ==
+  LET All == Flat(S)
+      At(p) == S[p[1]][p[2]]
+      Violating == {p \in All : At(p).obs = "ok" /\ At(p).binding # {}}
+      Stricter  == {p \in All : At(p).obs = "refused" /\ At(p).binding = {} /\ At(p).ev # "chain"}
+      Panicked  == {p \in All : At(p).obs = "panic"}
+      Diverging == {p \in All : LET s == At(p) IN
+                      /\ s.obs # "panic"
+                      /\ \/ s.mok # (s.obs = "ok")
+                         \/ ~s.mok /\ RuleCls(s.mrule) # s.cls
+                                    /\ ~(s.mrule = "builder" /\ s.cls \in {"builder", "signature"})}
+      Singles   == {p \in All : Cardinality(At(p).binding) = 1}
+      SoleRefused == UNION {At(p).binding : p \in {q \in Singles : At(q).obs \in {"refused", "panic"}}}
+      SoleAny     == UNION {At(p).binding : p \in Singles}
+      Advisory  == {j \in 1..NLog : LET c == Log[j] IN
+                      c.kind = "commit" /\ c.obs.res = "ok" /\ ClaimedFeerateOutside(c.pol, c.setup, c.req)}
+      Unreached == {j \in 1..NLog : Log[j].kind = "commit" /\ Log[j].obs.res = "none"}
+      Describe(p) == LET c == Log[p[1]] s == At(p) IN
+        [id |-> c.id, fam |-> c.fam, why |-> c.why, ev |-> s.ev, side |-> IF s.ev = "setup" THEN "-" ELSE c.side,
+         n |-> c.n, obs |-> s.obs, cls |-> s.cls, rules |-> SetToSeq(s.binding), broken |-> SetToSeq(s.broken),
+         detail |-> s.detail, model_ok |-> s.mok, model_rule |-> s.mrule, line |-> p[1]]
+      Some(Q, m) == LET q == SetToSeq(Q) IN [x \in 1..(IF Len(q) < m THEN Len(q) ELSE m) |-> Describe(q[x])]
+      ClsCount(Q) == LET cs == {At(p).cls : p \in Q} IN
+                     SetToSeq({<<c, Cardinality({p \in Q : At(p).cls = c})>> : c \in cs})
+  IN
   [ records      |-> NLog,
-    steps        |-> Cardinality(AllSteps),
-    accepted     |-> Cardinality({p \in AllSteps : StepAt(p).obs = "ok" /\ StepAt(p).ev # "chain"}),
-    refused      |-> Cardinality({p \in AllSteps : StepAt(p).obs = "refused"}),
+    steps        |-> Cardinality(All),
+    accepted     |-> Cardinality({p \in All : At(p).obs = "ok" /\ At(p).ev # "chain"}),
+    refused      |-> Cardinality({p \in All : At(p).obs = "refused"}),
     panics       |-> Cardinality(Panicked),
     panic_samples |-> Some(Panicked, 5),
     unreached    |-> Cardinality(Unreached),
@@ -127,5 +129,6 @@ Report ==
     sole_in_matrix_missing |-> SetToSeq((CommitRules \cup SetupRules) \ SoleAny),
     advisory_claimed_feerate_outside_accepted |-> Cardinality(Advisory) ]
 
+Report == ReportOf(TLCEval([j \in 1..NLog |-> TLCEval(WalkOf(j))]))
 ASSUME JsonSerialize(IOEnv.CP_REPORT, Report)
 =============================================================================
